@@ -211,7 +211,7 @@ NOT_CLAIMED = {}
 
 CLAIMS = {
     "C01": dict(level="exploration", engine="simk-explorer", design_ref="DESIGN.md 4 C01", note=_NOTE,
-                technique="allocator monitor x kernel-held-region registry under an adversarial simulated kernel; ASan and Miri in the thorough tier",
+                technique="allocator monitor x kernel-held-region registry under an adversarial simulated kernel; quarantine-poison check of freed blocks in histories on the real kernel (realmix); controlled and free-running thread schedules of drop-vs-completion; ASan and Miri in the thorough tier",
                 text="Every dealloc/realloc in the process is checked against the regions the simulated kernel currently holds for in-flight (or queued) requests, for tens of thousands of random interleavings of poll/drop/Ring::poll with kernel consume/complete/cancel outcomes per run; thorough adds the same histories under AddressSanitizer and Miri, where the simulated kernel's real reads/writes at completion time turn a premature free into a tool report."),
     "C02": dict(level="exploration", engine="simk-explorer", design_ref="DESIGN.md 4 C02", note=_NOTE,
                 technique="history + per-operation sequential model with unique results per submission id",
@@ -226,7 +226,7 @@ CLAIMS = {
                 technique="cancel-request log vs drop log at the kernel boundary; allocator monitor (quarantine, exactly-once, leak ledger after teardown); controlled and free-running (Miri, TSan) thread schedules of drop-vs-completion",
                 text="Every ASYNC_CANCEL the simulated kernel receives is matched against the operations the history dropped while running (target, count, room in the queue at the drop); the allocator monitor reports state freed twice, freed while its completion is still unconsumed, or still live after the ring was dropped, over all op kinds x drop points x cancel outcomes the generator reaches (matrix printed in the evidence). Scenario c06mt/c06free drops in-flight futures on worker threads while the ring thread consumes their completions: under the baton scheduler (switching at a10's lock points) with a leak/double-free ledger over the whole schedule, and free-running under Miri (its scheduler, data-race detector, weak memory) and ThreadSanitizer."),
     "C04": dict(level="exploration", engine="baton-scheduler", design_ref="DESIGN.md 4 C04", note=_NOTE + "; the scheduler explores sequentially consistent interleavings at the hook points only",
-                technique="controlled thread schedules (baton scheduler at a10_verif hook points) over the real submission queue + simulated kernel consuming entries; counter wrap sweep; free-running schedules under ThreadSanitizer and Miri (data-race detection of entry writes vs kernel reads)",
+                technique="controlled thread schedules (baton scheduler at a10_verif hook points) over the real submission queue + simulated kernel consuming entries; counter wrap sweep; free-running schedules under ThreadSanitizer and Miri (data-race detection of entry writes vs kernel reads); token exactly-once monitor on the real kernel (c04real)",
                 text="The simulated kernel checks at every consumption that the tail is never more than `entries` ahead of its head, that no consumed entry is empty/reset and that no single-shot user_data is in flight twice; the scenario gives every read a unique offset so that lost, duplicated or modified submissions are identified exactly. Thread interleavings are produced deterministically by a seeded scheduler that switches at the lock, shared-load and tail-store points inside a10; every queue size x counter start value combination near the 2^31/2^32 wrap is swept exhaustively single-threaded."),
     "C14": dict(level="exploration", engine="pure-sweep", design_ref="DESIGN.md 4 C14", note="trusted base: the Vec<u8> reference model in the harness; IoSlice/IoMutSlice == struct iovec",
                 technique="differential sweep against a Vec<u8> model with pointer-bounds checks; the same sweep under Miri",
@@ -238,10 +238,10 @@ CLAIMS = {
                 technique="differential testing against a capacity-bounded Vec<u8> model with canaries around the slot, in debug and release profiles",
                 text="Random edit sequences on kernel-filled ReadBufs are compared call by call with a Vec<u8> of fixed capacity, including which ranges must panic (Vec::drain semantics) and that a rejected call leaves the buffer untouched; all other pool slots carry canaries; the buffer-ring entry written at release must name the slot the kernel selected. Run in both build profiles because overflow checks differ."),
     "C07": dict(level="exploration", engine="simk-explorer", design_ref="DESIGN.md 4 C07", note=_NOTE + "; the close(2) interposer sees every close in the process",
-                technique="descriptor ledger (issued -> owned -> closed(how)) fed by a close(2) interposer and the simulated kernel; never-reused descriptor numbers; known findings keyed by (opcode, life-cycle state)",
+                technique="descriptor ledger (issued -> owned -> closed(how)) fed by a close(2) interposer and the simulated kernel; never-reused descriptor numbers; known findings keyed by (opcode, life-cycle state); descriptor count and direct-table conservation on the real kernel (realmix)",
                 text="Every descriptor the simulated kernel hands out is a real, never-reused number; every close in the process (a10's synchronous fallback, OwnedFd drops, IORING_OP_CLOSE, files-update) is an event. Double closes, closes of the wrong kind, closes of standard streams, descriptors returned with the wrong kind, and descriptors still open after everything was dropped are reported per opcode and life-cycle state. The unchanged tree has known findings (results of abandoned/uncollected operations, dropped Close futures), listed in KNOWN_FINDINGS.txt."),
     "C12": dict(level="fault_enumeration", engine="simk-explorer", design_ref="DESIGN.md 4 C12", note=_NOTE,
-                technique="exhaustive enumeration of drop orders with four ledgers (mappings, descriptors, allocations, kernel tables) checked after each history",
+                technique="exhaustive enumeration of drop orders x 4 kernel situations with four ledgers (mappings, descriptors, allocations, kernel tables) checked after each history; sampled teardown histories on the real kernel with leak/descriptor/poison monitors",
                 text="All permutations of dropping the objects of four object sets, crossed with how the ring's final sync-cancel ends, are executed on the simulated kernel; after each, every mapped region must have been unmapped exactly once with its own length, no request may be in flight or queued after Ring's drop returned, no buffer ring may stay registered, no descriptor may be left open, no block allocated inside a10 may be live, nothing may be freed while the kernel holds it. Exhaustive within these sets."),
     "C18": dict(level="fault_enumeration", engine="simk-explorer", design_ref="DESIGN.md 4 C18", note=_NOTE,
                 technique="exhaustive enumeration of configurations x kernel refusal points with descriptor/mapping/allocation ledgers and parameter-block decoding",
@@ -250,7 +250,7 @@ CLAIMS = {
                 technique="pool ledger in the simulated kernel (owner of the buffer-ring head) + checksums of held buffers + conservation check; controlled schedules for concurrent releases (plus free-running under Miri/TSan); wrap marathon",
                 text="The simulated kernel owns the kernel head of every buffer ring and audits every entry a10 publishes (buffer handed out exactly once, own address and length, never more entries than the pool has), the harness checksums every ReadBuf it holds, and at the end of each history every buffer must be the kernel's again. Concurrent releases run under the seeded scheduler with the kernel looking at the ring between the entry write and the tail store. Known findings: buffers selected for abandoned/uncollected operations are lost (KNOWN_FINDINGS.txt)."),
     "C11": dict(level="exploration", engine="baton-scheduler", design_ref="DESIGN.md 4 C11", note=_NOTE + "; bounded-progress restatement of liveness",
-                technique="controlled thread schedules with deadlock detection: a Ring::poll parked in the simulated kernel while no other thread can run is a lost wake-up; free-running schedules under Miri and ThreadSanitizer",
+                technique="controlled thread schedules with deadlock detection: a Ring::poll parked in the simulated kernel while no other thread can run is a lost wake-up; free-running schedules under Miri and ThreadSanitizer; wake-vs-blocked-poll rounds on the real kernel (c11real)",
                 text="Three scenario families make 'every poll has a dedicated wake' true by construction, so a poll that blocks forever in the simulated kernel after all wake() calls returned is a lost wake-up; spurious early returns are allowed. All three ring configurations that support waking are covered, including the synchronous REGISTER_SEND_MSG_RING path and the retry loop when the queue is full."),
     "C16": dict(level="exploration", engine="real-kernel differential + pure sweep", design_ref="DESIGN.md 4 C16", note="trusted base: the real kernel of the sandbox and std's socket address accessors as reference; the pure model of kernel-reported lengths for addresses that cannot be bound",
                 technique="differential testing against the real kernel (std getsockname as independent oracle) plus a pure storage->bytes->init sweep with garbage beyond the reported length",
